@@ -353,33 +353,27 @@ func TestVerifC10(t *testing.T) {
 				}
 			}
 		}
-		// blocktime index whose recorded epoch field alone is another epoch's (slot range untouched)
-		if raw, err := os.ReadFile(A.Idx.SlotToBlocktime); err == nil {
-			braw, _ := os.ReadFile(B.Idx.SlotToBlocktime)
-			// locate the bytes that differ between A's and B's headers in the first 64 bytes and transplant
-			// them one 8-byte field at a time
-			for off := 0; off+8 <= 64 && off+8 <= len(raw); off++ {
-				if bytes.Equal(raw[off:off+8], braw[off:off+8]) {
-					continue
-				}
-				mod := append([]byte{}, raw...)
-				copy(mod[off:off+8], braw[off:off+8])
-				p := filepath.Join(vdir, fmt.Sprintf("blocktime-field-%d.index", off))
-				os.WriteFile(p, mod, 0o644)
-				err := tryLoad(map[string]string{"slot_to_blocktime": p})
-				rec.Eval(1)
-				if err == nil {
-					// did the epoch really change in what the file records?
-					if bt, e2 := blocktimeindex.FromBytes(mod); e2 == nil && bt.Epoch() == A.Model.Epoch {
-						// the transplanted bytes are not (only) the epoch field; loading is legitimate if all lookups still agree
-						rec.Count("diag_blocktime_header_field_ignored", 1)
-					} else {
-						rec.Violation("epoch-loads-with-foreign-index/slot_to_blocktime", fmt.Sprintf("header bytes %d..%d of another epoch's block-time index: the epoch loaded", off, off+8), c10Case{Seed: seed, Subst: map[string]string{"slot_to_blocktime": fmt.Sprintf("A's file with header bytes %d..%d from B", off, off+8)}})
-					}
-				}
-				rec.Distinct(fmt.Sprintf("field/slot_to_blocktime/%d", off))
-				off += 7
+		// blocktime index whose recorded epoch field alone is another epoch's (slot range untouched).
+		// Layout written by the repository: magic "blocktimeindex" (14) | start u64 | end u64 | epoch u64 | capacity u64 | values.
+		if raw, err := os.ReadFile(A.Idx.SlotToBlocktime); err == nil && len(raw) > 46 && string(raw[:14]) == "blocktimeindex" {
+			mod := append([]byte{}, raw...)
+			for i := 0; i < 8; i++ {
+				mod[30+i] = byte(B.Model.Epoch >> (8 * uint(i)))
 			}
+			p := filepath.Join(vdir, "blocktime-epoch-field.index")
+			os.WriteFile(p, mod, 0o644)
+			err := tryLoad(map[string]string{"slot_to_blocktime": p})
+			rec.Eval(1)
+			if err == nil {
+				rec.Violation("epoch-loads-with-foreign-index/slot_to_blocktime", fmt.Sprintf("block-time index of epoch %d whose recorded epoch field is %d: the epoch loaded", A.Model.Epoch, B.Model.Epoch), c10Case{Seed: seed, Subst: map[string]string{"slot_to_blocktime": "A's file with the recorded epoch field of B"}})
+			}
+			// and the value must read back unchanged
+			if bt, e2 := blocktimeindex.FromBytes(mod); e2 == nil && bt.Epoch() != B.Model.Epoch {
+				rec.Violation("identity-round-trip/slot_to_blocktime", fmt.Sprintf("file records epoch %d, read back %d", B.Model.Epoch, bt.Epoch()), c10Case{Seed: seed, Note: "epoch field patched"})
+			}
+			rec.Distinct("field/slot_to_blocktime/epoch")
+		} else {
+			rec.Count("diag_blocktime_layout_unknown", 1)
 		}
 	}
 
